@@ -180,5 +180,48 @@ def run(ctx):
         mm = m.get("ok")
         if mm is None or [mm[0]] + [unfrac(x) for x in mm[1:]] != got:
             res.tie_break("source.displaybpm", case, str(got), str(m))
+    # histories: the same simfile and chart objects are asked again after edits (the answer depends on their current content only)
+    for h in range(ctx.scale(120, 1500)):
+        version = rng.choice(VERSIONS)
+        st = [rng.choice([0, 0, 1, 2]) for _ in range(11)]
+        sim, chart = build("SSC", version, "SSC", tuple(st), None, None, None, None)
+        hist = []
+        for step in range(rng.randrange(2, 7)):
+            uses = rule_uses_chart("SSC", version, "SSC", st)
+            source = chart if uses else sim
+            case = {"history": list(hist), "version": version, "eleven_now": "".join(map(str, st))}
+            res.case(case, nontrivial=len(hist) > 0); res.traces += 1
+            try:
+                td = TimingData(sim, chart)
+                got = [[str(e.beat), str(e.value)] for e in td.bpms], [[str(e.beat), str(e.value)] for e in td.stops]
+                td2 = TimingData(*build("SSC", version, "SSC", tuple(st), None, None, None, None))
+                exp = [[str(e.beat), str(e.value)] for e in td2.bpms], [[str(e.beat), str(e.value)] for e in td2.stops]
+            except Exception as e:
+                res.violation(case, "TimingData raised after edits to the same objects", impl=core.exc_name(e)); break
+            if got != exp:
+                res.violation(case, "after edits, the same objects give timing data that freshly built equal objects do not (source: %s)" % ("chart" if uses else "simfile"),
+                              impl=str(got), expected=str(exp)); break
+            if source.get("BPMS"):
+                try:
+                    r = displaybpm(sim, chart)
+                    gd = ["static", Fraction(r.value)] if isinstance(r, StaticDisplayBPM) else ["other"]
+                except Exception as e:
+                    res.violation(case, "displaybpm raised after edits to the same objects", impl=core.exc_name(e)); break
+                ed = expected_display(None, False, source["BPMS"])
+                if gd != ed:
+                    res.violation(case, "after edits, displayed BPM is not the chosen source's", impl=str(gd), expected=str(ed)); break
+            # one edit
+            if rng.random() < .15:
+                version = rng.choice(VERSIONS)
+                if version is None: sim.pop("VERSION", None)
+                else: sim["VERSION"] = version
+                hist.append(["version", version])
+            else:
+                i = rng.choice([j for j in range(11) if st[j] == 2] or list(range(11))) if rng.random() < .5 else rng.randrange(11)
+                new = rng.choice([0, 1, 2]); st[i] = new
+                if new == 0: chart.pop(ELEVEN[i], None)
+                elif new == 1: chart[ELEVEN[i]] = ""
+                else: chart[ELEVEN[i]] = CHART_VALUE[ELEVEN[i]]
+                hist.append([ELEVEN[i], ["absent", "empty", "value"][new]])
     res.assumptions = ["Python float() on version strings and Decimal() are CPython's; the model parses plain decimal literals (DESIGN 4.15 limits)"]
     return res
